@@ -83,22 +83,22 @@ Definition zs (s : list N) : list Z := map Z.of_N s.
     function is entered with. *)
 Definition alpha : list N := [42; 47; 34; 92; 10; 49; 46; 101; 43; 45]%N.
 Definition cand_strs : list (list N) := strs_upto alpha 4.
-(** Shorter strings over an alphabet that also has 0, x, a, u, backquote, 7
-    and a rune above the ASCII range. *)
-Definition alpha2 : list N := [42; 47; 34; 92; 10; 49; 46; 101; 43; 45; 48; 120; 97; 117; 96; 55; 233]%N.
+(** Shorter strings over an alphabet that also has 0, x, a, u, backquote, 7,
+    E, carriage return and a rune above the ASCII range. *)
+Definition alpha2 : list N := [42; 47; 34; 92; 10; 49; 46; 101; 43; 45; 48; 120; 97; 117; 96; 55; 233; 69; 13]%N.
 Definition cand_strs2 : list (list N) := strs_upto alpha2 3.
 
 Definition cex_lexLineComment :=
   cex_search lexobs_eqb
     (fun s => obs_of_gen (gen_lexing_lexLineComment (zs s) [47] []))
     (fun s => obs_of_model ty_code (lex_line_comment s))
-    (map (fun w => 47%N :: w) cand_strs ++ [[]]).
+    (map (fun w => 47%N :: w) (cand_strs ++ cand_strs2) ++ [[]]).
 
 Definition cex_lexBlockComment :=
   cex_search lexobs_eqb
     (fun s => obs_of_gen (gen_lexing_lexBlockComment (zs s) [47] []))
     (fun s => obs_of_model ty_code (lex_block_comment s))
-    (map (fun w => 42%N :: w) cand_strs ++ [[]]).
+    (map (fun w => 42%N :: w) (cand_strs ++ cand_strs2) ++ [[]]).
 
 Definition cex_LexRawString :=
   cex_search lexobs_eqb
@@ -118,11 +118,19 @@ Definition cex_LexNumber :=
     (fun s => obs_of_model ty_code (lex_number s))
     (map (fun w => 49%N :: w) cand_strs ++ map (fun w => 48%N :: w) cand_strs2 ++ cand_strs2).
 
+(** Escapes at the edges of the code-point checks: \uD7FF \uD800 \uDFFF \uE000
+    \U0010FFFF \U00110000 \377 \400 \xff \x7g \u12 (hex digits as runes). *)
+Definition cand_escapes : list (list N) :=
+  [[117; 68; 55; 70; 70]; [117; 68; 56; 48; 48]; [117; 68; 70; 70; 70]; [117; 69; 48; 48; 48];
+   [85; 48; 48; 49; 48; 70; 70; 70; 70]; [85; 48; 48; 49; 49; 48; 48; 48; 48];
+   [51; 55; 55]; [52; 48; 48]; [120; 102; 102]; [120; 55; 103]; [117; 49; 50]; [85; 102; 102; 102; 102; 102; 102; 102; 102]]%N.
+
 Definition cex_LexString :=
   cex_search lexobs_eqb
     (fun s => obs_of_gen (gen_lexing_LexString (zs s) [] [] 11 34))
     (fun s => obs_of_model ty_code (lex_string 34 s))
-    (map (fun w => 34%N :: w) cand_strs ++ map (fun w => 34%N :: 92%N :: w) cand_strs2 ++ cand_strs2).
+    (map (fun w => 34%N :: w) cand_strs ++ map (fun w => 34%N :: 92%N :: w) cand_strs2 ++ cand_strs2
+     ++ map (fun w => (34 :: 92 :: w ++ [34])%N) cand_escapes).
 
 (** ** ErrorList.Add *)
 Definition cand_errs (n : nat) : list go_err := repeat (GoErr "c" "m") n.
